@@ -1,6 +1,7 @@
 """C14 - mappings, merge keys, sets, omaps built by the YAML 1.1 rules (rejection and shape clauses)."""
 import sys
 
+from sa import rules_r6 as R6
 from sa import report, rules_repr as RR2, rules_confine as RC
 
 
@@ -14,11 +15,15 @@ def run(ctx, repo):
         'filled only through construct_mapping (R-HASHABLE-GUARD); both back-ends share SafeConstructor '
         '(R-LOADER-COMPOSITION). NOT decided: precedence among several merge sources (submerge order), recursion of merges.')
     ctx.trust('CPython ast; sa.cfg dominance')
-    RR2.r_shape_dispatch_total(ctx, repo)
-    RR2.r_hashable_guard(ctx, repo)
-    RR2.r_merge_shape(ctx, repo)
-    RC.r_loader_composition(ctx, repo, {'loader.SafeLoader': 'constructor.SafeConstructor',
+    ctx.call(RR2.r_shape_dispatch_total, repo)
+    ctx.call(RR2.r_hashable_guard, repo)
+    ctx.call(RR2.r_merge_shape, repo)
+    ctx.call(RC.r_loader_composition, repo, {'loader.SafeLoader': 'constructor.SafeConstructor',
                                         'cyaml.CSafeLoader': 'constructor.SafeConstructor'})
+    ctx.call(R6.r_no_mutate_while_iterating, repo, ['constructor'])
+    ctx.call(R6.r_kind_exit, repo)
+    ctx.call(R6.r_flatten_before_read, repo)
+    ctx.call(R6.r_merge_cycle_cut, repo)
 
 
 if __name__ == '__main__':
